@@ -148,7 +148,7 @@ class Gen:
 
     def NO(self):
         r = self.rng
-        v = r.choice(["0", "1", "2", "-1", "21", "71", "80", "100", "1000", "1001", "1.5", "3.14159", "1000000", '"12"', '"1,5"',
+        v = r.choice(["0", "1", "2", "-1", "8", "11", "18", "800", "8000", "21", "71", "80", "100", "1000", "1001", "1.5", "3.14159", "1000000", '"12"', '"1,5"', '"huit"', '"onze"', '"eight"',
                       '"three"', "10**21", "-10**20", "2**53+1", '"abc"', "None", "1e3"])
         s = call("NO", v, self.larg())
         k = r.random()
